@@ -182,7 +182,7 @@ def perturbation(ck, cp, tier, seed):
                     for uncond in (False, True):
                         if uncond and not name.startswith("Piecewise"):
                             continue
-                        if name.startswith("UMNN") and (dims == 4 or Fe > 3):
+                        if name.startswith("UMNN") and Fe > 3:
                             continue
                         if tier == "quick" and uncond and (dims == 4 or Fe == maxF):
                             continue
@@ -234,6 +234,16 @@ def perturbation(ck, cp, tier, seed):
                                     bad = [c for c in changed if c != j]
                                 else:
                                     bad = [c for c in changed if c in idf and c != j] if not uncond else []
+                                if dims == 4 and j in trf and not bad:
+                                    # one position of a transformed channel: nothing but that position may move
+                                    x3 = x.clone()
+                                    x3[:, j, 0, 1] = x3[:, j, 0, 1] * 0.5 + 0.1
+                                    with torch.no_grad():
+                                        y3 = fn(x3, ctx)[0]
+                                    moved = (y3 != y0)
+                                    moved[:, j, 0, 1] = False
+                                    if bool(moved.any()):
+                                        bad = sorted({int(c) for c in torch.nonzero(moved)[:, 1]})
                                 if bad:
                                     ck.finding("coupling:unexpected-dependency:%s" % name,
                                                "%s: perturbing feature %d (%s) changed outputs %s; mask %s dims %d uncond %s"
